@@ -16,6 +16,7 @@
   (names, child order, parent positions; lengths and supports up to the final division).
 -/
 import Gotree.Model.C09
+import Gotree.Model.C09Float
 import Gotree.Model.C04
 import Gotree.Model.C04HM
 
@@ -184,7 +185,7 @@ def consensusLit (ts : List T) (c : Rat) : Option T :=
           | none => none
           | some kvs =>
             let n := ts.length
-            let sel := kvs.filter fun kv => C04.eiKeep (floorCut c n) n kv.2
+            let sel := kvs.filter fun kv => C04.eiKeep (cutNow c n) n kv.2
             applyLit alltips sorted n star sel
 
 /-! ## comparison with the α dump of the implementation -/
@@ -215,12 +216,19 @@ def zeroPL : Kids → Kids
   | (e, t) :: r => (e, zeroP t) :: zeroPL r
 end
 
-/-- the fidelity tag of a case on which both the implementation and the model succeed -/
-def fidelity (loose : Bool) (impl : T) (ts : List T) (c : Rat) : String :=
-  match consensusLit (if loose then ts.map zeroP else ts) c with
+/-- the literal model on a case (`loose` = CLI case: inputs as the Newick reader builds them) -/
+def litOf (loose : Bool) (ts : List T) (c : Rat) : Option T :=
+  consensusLit (if loose then ts.map zeroP else ts) c
+
+/-- the fidelity tag of a case on which the implementation succeeds, `lit` being `litOf` -/
+def fidelityOf (loose : Bool) (impl : T) (lit : Option T) : String :=
+  match lit with
   | none => "fidelity-none"
   | some m =>
     if sameT loose impl m then (if loose then "fidelity-exact-cli" else "fidelity-exact")
     else "fidelity-diff"
+
+def fidelity (loose : Bool) (impl : T) (ts : List T) (c : Rat) : String :=
+  fidelityOf loose impl (litOf loose ts c)
 
 end Gotree.C09L
